@@ -48,7 +48,9 @@ def known_for_failure(known, prop, fail):
         if im is None:
             continue
         try:
-            if eval(im, dict(rtc.BASE_NS), dict(fail.args)):
+            ns = dict(rtc.BASE_NS)
+            ns.update(fail.args)  # one namespace: generator expressions cannot see eval() locals
+            if eval(im, ns):
                 return k
         except Exception:
             continue
